@@ -2,11 +2,11 @@ package main
 
 import (
 	"fmt"
-	"golang.org/x/tools/go/packages"
 	"go/ast"
 	"go/constant"
 	"go/token"
 	"go/types"
+	"golang.org/x/tools/go/packages"
 	"regexp"
 	"sort"
 	"strings"
@@ -16,7 +16,73 @@ func init() { register("C15", checkC15) }
 
 const yamlPath = "gopkg.in/yaml.v3"
 
+// yamlContentAliases: local variables that are only ever assigned the Content of a YAML node (entries := node.Content)
+var yamlContentAliases = map[types.Object]bool{}
+
+func collectYamlContentAliases(p *Prog) {
+	yamlContentAliases = map[types.Object]bool{}
+	for _, pk := range p.modPkgsSorted() {
+		info := pk.TypesInfo
+		all := map[types.Object][]ast.Expr{}
+		for _, file := range pk.Syntax {
+			ast.Inspect(file, func(n ast.Node) bool {
+				switch x := n.(type) {
+				case *ast.AssignStmt:
+					if len(x.Lhs) == len(x.Rhs) {
+						for i, l := range x.Lhs {
+							if id, ok := l.(*ast.Ident); ok {
+								o := info.Defs[id]
+								if o == nil {
+									o = info.Uses[id]
+								}
+								if o != nil {
+									all[o] = append(all[o], x.Rhs[i])
+								}
+							}
+						}
+					} else {
+						for _, l := range x.Lhs {
+							if id, ok := l.(*ast.Ident); ok {
+								if o := info.Defs[id]; o != nil {
+									all[o] = append(all[o], nil)
+								} else if o := info.Uses[id]; o != nil {
+									all[o] = append(all[o], nil)
+								}
+							}
+						}
+					}
+				case *ast.ValueSpec:
+					for i, nm := range x.Names {
+						if o := info.Defs[nm]; o != nil {
+							if i < len(x.Values) {
+								all[o] = append(all[o], x.Values[i])
+							} else {
+								all[o] = append(all[o], nil)
+							}
+						}
+					}
+				}
+				return true
+			})
+		}
+		for o, rhs := range all {
+			okAll := len(rhs) > 0
+			for _, e := range rhs {
+				if e == nil || !isYamlNodeContent(info, e) {
+					okAll = false
+				}
+			}
+			if okAll {
+				yamlContentAliases[o] = true
+			}
+		}
+	}
+}
+
 func isYamlNodeContent(info *types.Info, e ast.Expr) bool {
+	if id, ok := ast.Unparen(e).(*ast.Ident); ok {
+		return yamlContentAliases[info.Uses[id]]
+	}
 	sel, ok := ast.Unparen(e).(*ast.SelectorExpr)
 	if !ok || sel.Sel.Name != "Content" {
 		return false
@@ -40,6 +106,7 @@ func checkC15(c *Ctx) {
 	r.Rule("C15.O4", "only Kind, Tag, Value and Content of YAML nodes decide anything", 1)
 
 	// ---- O1
+	collectYamlContentAliases(p)
 	for _, pk := range p.modPkgsSorted() {
 		info := pk.TypesInfo
 		for _, file := range pk.Syntax {
